@@ -139,8 +139,11 @@ def results_doc(repo, fmt):
     from ..absint import iter_effects
     args = []
     for e, ctx in iter_effects(effs):
-        if e.kind == 'call' and e.target.cls == 'Model' and (e.target.name.startswith('_get_') and e.target.name not in ('_get_pair_assignments', '_get_pair_assignments_with_none', '_get_profile_string', '_get_max_rank')) and e.args:
-            if not any(c.kind == 'call' and c.target.cls == 'Model' and c.target.name.startswith('_get_') for c, br in ctx):
+        not_stat = {repo.actual('Model', x) for x in ('_get_pair_assignments', '_get_pair_assignments_with_none', '_get_profile_string', '_get_max_rank')}
+        # a statistic / listing helper: a private Model method that takes the list of matched pairs as its first argument
+        if e.kind == 'call' and e.target.cls == 'Model' and e.target.name.startswith('_') and not e.target.name.startswith('__') and e.target.name not in not_stat and e.args \
+                and len(e.target.params) >= 2:
+            if not any(c.kind == 'call' and c.target.cls == 'Model' and c.target.name.startswith('_') and c.target.name not in not_stat for c, br in ctx):
                 args.append((e.target.name, e.args[0]))
     return f, full[0], args
 
